@@ -93,6 +93,15 @@ def run(pid, tier, selftest, assumptions):
             docs.append((a2mlgen.document(a2mlgen.render(decls), blocks), False))
             meta.append({"e": "ifdata-described", "pat": {"fam": "ifdata-described", "cmt": f"{per_line} per line"}, "file_level_comment": False})
     a2mlgen.PER_LINE[0] = 6
+    if pid == "C01":
+        # the raw A2ML text with every kind of tail in front of /end A2ML (blank lines, blanks, no line break, CRLF)
+        body = '\n      block "IF_DATA" taggedunion { "X" struct { uint; }; };'
+        for name, tail in (("newline", "\n"), ("blank-lines", "\n\n\n"), ("blank-lines-indent", "\n\n      "), ("same-line", " "),
+                           ("two-newlines", "\n\n"), ("tabs", "\n\t\t")):
+            for crlf in (False, True):
+                t = a2mlgen.document(body + tail, [("MODULE", ["X", "7"]), ("MEASUREMENT", ["X", "0x10"])])
+                docs.append((t.replace("\n", "\r\n") if crlf else t, False))
+                meta.append({"e": "a2ml-tail", "pat": {"fam": "a2ml-tail", "cmt": name + ("/crlf" if crlf else "")}, "file_level_comment": False})
     # value classes per parameter type (C01, C02): the literal catalogue of MC_ParserCases
     nvalue = 0
     vrej = {}
